@@ -73,6 +73,17 @@ Proof.
 Qed.
 Print Assumptions guards_need_write_bit.
 
+(** Hclose refreshes the version element exactly when the file is open, the version is marked modified and the file
+    allows writing; a failed refresh fails the close. *)
+Theorem guard_hclose_version : forall refcount modified facc,
+  hclose_updates_version refcount modified facc = 1 <-> (0 < refcount /\ modified = 1 /\ Z.land facc DFACC_WRITE <> 0).
+Proof. exact hclose_update_spec. Qed.
+Print Assumptions guard_hclose_version.
+
+Theorem guard_hclose_reports_failed_update : forall r, hclose_fails_when_update_fails r = 1 <-> r = FAIL.
+Proof. exact hclose_fails_spec. Qed.
+Print Assumptions guard_hclose_reports_failed_update.
+
 Theorem guard_vattach : forall mode facc,
   vattach_denied mode facc = 1 <-> (mode = CH_W /\ Z.land facc DFACC_WRITE = 0).
 Proof. exact vattach_denied_spec. Qed.
@@ -128,6 +139,15 @@ Example ex_version_written_after_access :
   snd (hclose f) = [] /\
   (let '(f1, aid, _) := hstartaccess f 1000 1 DFACC_READ in
    let '(f2, _, _) := hendaccess f1 aid in snd (hclose f2)) = [WData 92; WDDBlocks; WFileEnd].
+Proof. vm_compute. split; reflexivity. Qed.
+
+(** read-only open of a file WITHOUT version element, one read access (marks the version modified), close: the close
+    succeeds and writes nothing (on the merged tree before the repair it failed and left the file open) *)
+Example ex_read_only_close_of_versionless_file :
+  let f := hopen_existing DFACC_READ (tl ex_dds) 444 (0, 0, 0) in
+  let '(f1, aid, _) := hstartaccess f 1000 1 DFACC_READ in
+  let '(f2, _, _) := hendaccess f1 aid in
+  f_vmod f2 = 1 /\ (let '(f3, r, w) := hclose f2 in (r, w, f_open f3)) = (0, [], false).
 Proof. vm_compute. split; reflexivity. Qed.
 
 (** S: the monitor flags a succeeding mutator, a device write and changed bytes while the file is read-only *)
